@@ -64,6 +64,8 @@ L['C16'] = dict(modules=['Schc.Properties.C16'], level='proof', technique='Lean 
               T('C16_pure_value', 'full', 'value() leaves self unchanged'), T('C16_pure_and', 'full', '& leaves its right operand unchanged'),
               T('C16_pure_or', 'full', '| …'), T('C16_pure_xor', 'full', '^ …'), T('C16_pure_eq', 'full', '== leaves its operand unchanged'),
               T('C16_pure_hash', 'full', 'hash() leaves self unchanged'), T('C16_pure_add', 'full', '+ leaves both operands unchanged'),
+              T('C16_buffer_sequence', 'full', 'any sequence of observations (value, hash, iteration, len, ==, slices) and in-place changes (slice assignment, in-place shift and pad) on one Buffer is simulated step by step by the bit-list interpreter; the Buffer stays canonical'),
+              T('C16_buffer_history', 'full', 'results independent of history for Buffers: after two histories that spell the same bits on the same side, every further sequence returns the same observations'),
               T('C16_buffer_writes', 'full', 'the attribute writes in buffer.py are exactly the reviewed ones (regenerated table)'),
               T('C16_buffer_calls', 'full', 'every internal pad/shift call is not in-place or acts on a local copy (regenerated table)'),
               T('C16_sites', 'full', 'the mutation sites of the SCHC-level modules are exactly the reviewed allow-list (regenerated table)')],
